@@ -16,7 +16,8 @@ import (
 //
 // Exhaustive enumeration (E4) of single and paired tamperings of every object a
 // static-ct-api server serves for ground-truth logs of sizes {1,2,255,256,257,513}
-// (plus two logs holding a leaf under a foreign leaf_index), of every distance-1
+// (plus two logs holding a leaf under a foreign leaf_index and one holding an RFC 6962
+// archival leaf; a subset also through a client with AllowRFC6962ArchivalLeafs), of every distance-1
 // mutation of SCTs and checkpoints; the real sunlight.Client is run over an
 // in-memory http.RoundTripper and judged against the reference leaf sequence.
 func TestVerifC12(t *testing.T) {
@@ -110,12 +111,12 @@ func TestVerifC12(t *testing.T) {
 	for k, v := range r.ops {
 		rp.Add("calls_"+k, v)
 	}
-	restr := fmt.Sprintf("thorough tier: xor 0x01 and 0x80 at every byte position of every data tile, hash tile, checkpoint, SCT and issuer of every log; the other six single-bit masks at every position of checkpoints, SCTs, issuers and tiles of logs with <= 4 leaves, and at the first 128, last 128 and every %dth position of the tiles of larger logs; Entries and AllEntries from every start, Entry on the targeted indexes and 0, n/2, 255, 256, n-1, CheckInclusion on the two targeted indexes", pl.stride)
+	restr := fmt.Sprintf("thorough tier: xor 0x01 and 0x80 at every byte position of every data tile, hash tile, checkpoint, SCT and issuer of every log; the other six single-bit masks at every position of checkpoints, SCTs, issuers and tiles of logs with <= 8 leaves, and at the first 128, last 128 and every %dth position of the tiles of larger logs; Entries and AllEntries from every start, Entry on the targeted indexes and 0, n/2, 255, 256, n-1, CheckInclusion on the two targeted indexes", pl.stride)
 	if !pl.thorough {
 		restr = fmt.Sprintf("masks 0x01 and 0x80 only; logs of size >= %d: byte flips at the first 128 and last 128 positions of each tile plus every %dth position (sizes <= 257 cover every position); per tampered server: Entries from every start offset (for byte flips the scan from 0 only via AllEntries), AllEntries from start 0 only, Entry on the two targeted indexes (and n-1 except for byte flips), CheckInclusion on the first targeted index (thorough: Entries and AllEntries from every start, Entry also on 0, n/2, 255, 256, n-1)", pl.restrictAt, pl.stride)
 	}
 	rp.Note("tier_restrictions", restr)
-	rp.Note("sizes", fmt.Sprint(c12Sizes, " evil:", c12EvilLogs))
+	rp.Note("sizes", fmt.Sprint(c12Sizes, " misplaced-leaf logs:", c12EvilLogs, " archival-leaf logs:", c12ArchLogs, " also driven with AllowRFC6962ArchivalLeafs=true:", c12AllowLogs))
 	rp.Note("real_time_sleeps", "none: the transport answers 200/404 only, so the fetcher's retry back-off is never entered")
 	t.Logf("C12 shard %d: %d of %d enumerated cases run, %d violations", verifmc.EnvInt("VERIF_SHARD", 0), mine, total, r.nviol)
 }
